@@ -206,6 +206,11 @@ func find(r leveldb.Reader, readOpts *opt.ReadOptions, start, end string) sorted
 	if end != "" {
 		endB = []byte(end)
 	}
+	if start != "" && end != "" && start > end {
+		// An inverted range contains no key, but goleveldb panics on
+		// it once the DB has tables beyond level 0. Use an empty range.
+		startB = endB
+	}
 	it := &iter{
 		it: r.NewIterator(
 			&util.Range{Start: startB, Limit: endB},
